@@ -11,6 +11,7 @@
 extern size_t __sanitizer_get_current_allocated_bytes(void);  /* libasan */
 #include "types.h"
 #include "array.h"
+#include "config.h"
 #include "meta.h"
 #include "values.h"
 
@@ -425,6 +426,45 @@ int main(void)
 			if (!e || e > sizeof(tmp) || drv_parse_nat(drv_w[3], &a) || a >= count_of(arr->_buf)) BAD;
 			memcpy(tmp, ((const uint8_t *) (arr->_buf + 1)) + a * e, e);
 			RES_PTR(mpt_array_set(arr, arr->_buf->_content_traits, e, tmp, (long) a));
+		}
+		else if (!strcmp(op, "cfgcheck") && drv_nw == 4) {
+			/* array of config items (mpt_config_item_traits): items own a name (on the heap from 12 bytes), children and
+			 * are copied between slots, between buffers and onto themselves (source = the slot's own storage);
+			 * every name / child buffer is released exactly once (sanitizers + heap count at the end) */
+			const MPT_STRUCT(type_traits) *t = mpt_config_item_traits();
+			MPT_STRUCT(array) x = MPT_ARRAY_INIT, y = MPT_ARRAY_INIT;
+			MPT_STRUCT(config_item) *it;
+			char *name;
+			int bad = 0;
+			(void) h;
+			if (drv_parse_nat(drv_w[3], &a) || a > 1000) BAD;
+			name = malloc(a + 2);
+			memset(name, 'c', a + 1); name[a + 1] = 0;
+			if (!mpt_array_set(&x, t, 3 * sizeof(*it), 0, 0)) bad = 1;
+			else {
+				it = (void *) (x._buf + 1);
+				for (int i = 0; i < 3; i++) {
+					if (!mpt_identifier_set(&it[i].identifier, name, (int) (a + (i & 1)))) bad = 2;
+					if (!mpt_array_set((MPT_STRUCT(array) *) &it[i].elements, t, (size_t) (i + 1) * sizeof(*it), 0, 0)) bad = 3;
+				}
+				/* slot 0 from slot 2, then slot 1 and slot 2 from their own storage */
+				if (!mpt_array_set(&x, t, sizeof(*it), &it[2], 0)) bad = 4;
+				it = (void *) (x._buf + 1);
+				if (!mpt_array_set(&x, t, sizeof(*it), &it[1], 1)) bad = 5;
+				it = (void *) (x._buf + 1);
+				if (!mpt_array_set(&x, t, sizeof(*it), &it[2], 2)) bad = 6;
+				it = (void *) (x._buf + 1);
+				if (!bad && mpt_identifier_compare(&it[0].identifier, name, (int) a)) bad = 7;
+				/* private copy of everything, one element removed */
+				mpt_array_clone(&y, &x);
+				if (!mpt_array_slice(&y, 0, y._buf->_used)) bad = 8;
+				else if (mpt_buffer_cut(y._buf, sizeof(*it), sizeof(*it)) < 0) bad = 9;
+			}
+			mpt_array_clone(&x, 0);
+			mpt_array_clone(&y, 0);
+			free(name);
+			if (bad) mark_illegal("cfgitem", (unsigned) bad);
+			RES("ok", "-");
 		}
 		else if (!strcmp(op, "identcheck") && drv_nw == 4) {
 			/* arrays of identifiers (mpt_identifier_traits: names up to 11 bytes live in the element, longer ones on the
